@@ -29,15 +29,43 @@ type pscen struct {
 	threads [][]pop
 }
 
+// values records, per execution, the key material seen under each identifier
+// (random bytes: they differ between executions and are compared only within one).
+type values struct {
+	mu  chan struct{}
+	byI map[int]map[string]bool
+}
+
+func newValues() *values {
+	v := &values{mu: make(chan struct{}, 1), byI: map[int]map[string]bool{}}
+	return v
+}
+
+func (v *values) note(k ntske.Key) {
+	if v == nil {
+		return
+	}
+	v.mu <- struct{}{}
+	if v.byI[k.ID] == nil {
+		v.byI[k.ID] = map[string]bool{}
+	}
+	v.byI[k.ID][string(k.Value)] = true
+	<-v.mu
+}
+
+var seen *values
+
 func doOp(p *ntske.Provider, o pop) pres {
 	if o.Get {
 		k, ok := p.Get(o.ID)
 		if !ok {
 			return pres{OK: false}
 		}
+		seen.note(k)
 		return pres{ID: k.ID, OK: true, NB: k.Validity.NotBefore.Sub(world.Epoch)}
 	}
 	k := p.Current()
+	seen.note(k)
 	return pres{ID: k.ID, OK: true, NB: k.Validity.NotBefore.Sub(world.Epoch)}
 }
 
@@ -118,6 +146,8 @@ func pschedules(r *mc.Run) {
 		}
 		r.Explore(mc.Config{Name: "sched/" + sc.name, Bound: bound}, func(x *mc.X) {
 			world.Run(r.T, x, func(w *world.World) {
+				seen = newValues()
+				defer func() { seen = nil }()
 				p := setup(sc)
 				s := sched.New(x)
 				defer s.Close()
@@ -148,6 +178,11 @@ func pschedules(r *mc.Run) {
 					}
 				}
 				got.Final = final(p)
+				for id, vs := range seen.byI {
+					if len(vs) > 1 {
+						x.Failf("key-id-two-values", "scenario %q: identifier %d was handed out with %d different key values (a cookie sealed under one of them cannot be opened through Get)", sc.name, id, len(vs))
+					}
+				}
 				match := -1
 				for i, ref := range refs {
 					if reflect.DeepEqual(ref, got) {
